@@ -714,7 +714,7 @@ def _mentions(node, names):
 
 
 # ---- expressions: tuples ('Vi',) ('Cst', k) ('Add', a, b) ...
-_RANK = {"Vi": 0, "Vn": 1, "Vs": 2, "VT": 4, "Cst": 5}
+_RANK = {"Vi": 0, "Vn": 1, "Vs": 2, "Vo": 2, "VT": 4, "Cst": 5}
 
 
 def _rank(e):
@@ -1110,11 +1110,18 @@ def tr_seek(fn, meth):
                 return "KAssign"
             if len(n.body) == 1 and isinstance(n.body[0], ast.If):
                 i2 = n.body[0]
-                ok = (ast.unparse(i2.test) == "offset >= self._frame_index" and len(i2.body) == 1 and len(i2.orelse) == 1
-                      and ast.unparse(i2.body[0]) == "advance = offset - self._frame_index"
-                      and ast.unparse(i2.orelse[0]) == "absolute = offset")
-                if not ok:
+                # if offset >= self._frame_index: advance = <expr>  else: absolute = <expr>
+                t2 = i2.test
+                if not (isinstance(t2, ast.Compare) and len(t2.ops) == 1 and isinstance(t2.ops[0], (ast.GtE, ast.Gt))
+                        and _dotted(t2.left) == "offset" and _dotted(t2.comparators[0]) == "self._frame_index"
+                        and len(i2.body) == 1 and len(i2.orelse) == 1
+                        and isinstance(i2.body[0], ast.Assign) and _dotted(i2.body[0].targets[0]) == "advance"
+                        and isinstance(i2.orelse[0], ast.Assign) and _dotted(i2.orelse[0].targets[0]) == "absolute"):
                     raise Outside("seek: advance / absolute computation")
+                strict = isinstance(t2.ops[0], ast.Gt)
+                senv = {"offset": ("Vo",), "self._frame_index": ("Vi",)}
+                adv_e = tr_expr(i2.body[0].value, senv)
+                abs_e = tr_expr(i2.orelse[0].value, senv)
                 adv = abs_ = False
                 for m in ast.walk(fn):
                     if isinstance(m, ast.If) and ast.unparse(m.test) == "advance is not None":
@@ -1129,7 +1136,7 @@ def tr_seek(fn, meth):
                                         and len(loops[0].body) == 1 and isinstance(loops[0].body[0], ast.Expr)
                                         and _is_frame_call(loops[0].body[0].value, meth))
                 if adv and abs_:
-                    return "KByReading"
+                    return "(KByReading %s %s %s)" % ("true" if strict else "false", pexpr(adv_e), pexpr(abs_e))
                 raise Outside("seek: reading loops")
     raise Outside("seek: unrecognised shape (%d chars)" % len(src))
 
